@@ -124,6 +124,13 @@ def build(kind="asan", harness=HARNESS, verbose=False):
             o = os.path.join(out, "obj", "cmd_" + s.replace("/", "_") + ".o")
             cobjs.append(o)
             jobs.append(["cc"] + BASE_CFLAGS + ccf + inc + ["-c", os.path.join(REPO, "cmd", s), "-o", o])
+        # the CLI's objects once more for the harness, with main() renamed, so that the harness can run
+        # subcommands in a forked child without exec (fast, and still the working tree's code)
+        hcobjs = []
+        for s in cmds:
+            o = os.path.join(out, "obj", "hcmd_" + s.replace("/", "_") + ".o")
+            hcobjs.append(o)
+            jobs.append(["cc"] + BASE_CFLAGS + ccf + inc + ["-Dmain=jose_cli_main", "-c", os.path.join(REPO, "cmd", s), "-o", o])
         hobjs = []
         for s in hsrcs:
             o = os.path.join(out, "obj", "h_" + os.path.basename(s) + ".o")
@@ -138,7 +145,7 @@ def build(kind="asan", harness=HARNESS, verbose=False):
         jose = os.path.join(out, "jose")
         run(["cc"] + ldflags + cobjs + lobjs + dl + ["-o", jose])
         hx = os.path.join(out, "hx")
-        run(["cc"] + ldflags + ["-rdynamic"] + hobjs + lobjs + dl + ["-o", hx])
+        run(["cc"] + ldflags + ["-rdynamic"] + hobjs + hcobjs + lobjs + dl + ["-o", hx])
         info = dict(dir=out, objs=lobjs, jose=jose, hx=hx, kind=kind, key=key,
                     build_s=round(time.time() - t0, 2), lib_sources=libs)
         json.dump(info, open(info_p, "w"))
